@@ -1155,6 +1155,37 @@ func (t *ftr) stdFunc(e *ast.CallExpr) (string, bool) {
 		return "(go_has_prefix N.eqb " + t.exprAs(e.Args[0], byteList) + " " + t.exprAs(e.Args[1], byteList) + ")", true
 	case full == "strings.HasSuffix" || full == "bytes.HasSuffix":
 		return "(go_has_suffix N.eqb " + t.exprAs(e.Args[0], byteList) + " " + t.exprAs(e.Args[1], byteList) + ")", true
+	case full == "strings.IndexByte" || full == "bytes.IndexByte":
+		usesGoList = true
+		return "(go_index_byte " + t.exprAs(e.Args[0], byteList) + " " + t.exprAs(e.Args[1], tkind{k: "N", w: 8}) + ")", true
+	case full == "strings.LastIndexByte" || full == "bytes.LastIndexByte":
+		usesGoList = true
+		return "(go_last_index_byte " + t.exprAs(e.Args[0], byteList) + " " + t.exprAs(e.Args[1], tkind{k: "N", w: 8}) + ")", true
+	case full == "strings.Contains" || full == "bytes.Contains":
+		usesGoList = true
+		return "(go_contains " + t.exprAs(e.Args[0], byteList) + " " + t.exprAs(e.Args[1], byteList) + ")", true
+	case full == "strings.TrimPrefix" || full == "bytes.TrimPrefix":
+		usesGoList = true
+		return "(go_trim_prefix " + t.exprAs(e.Args[0], byteList) + " " + t.exprAs(e.Args[1], byteList) + ")", true
+	case full == "strings.TrimSuffix" || full == "bytes.TrimSuffix":
+		usesGoList = true
+		return "(go_trim_suffix " + t.exprAs(e.Args[0], byteList) + " " + t.exprAs(e.Args[1], byteList) + ")", true
+	case full == "github.com/miekg/dns.CanonicalName" && asciiStrings:
+		// strings.Map over an ASCII-only letter mapping of dns.Fqdn(s): on ASCII input, GoList's model
+		usesGoList = true
+		return "(go_canonical_name_ascii " + t.exprAs(e.Args[0], byteList) + ")", true
+	case full == "github.com/miekg/dns.IsFqdn" && asciiStrings:
+		usesGoList = true
+		return "(go_is_fqdn_ascii " + t.exprAs(e.Args[0], byteList) + ")", true
+	case full == "github.com/miekg/dns.Fqdn" && asciiStrings:
+		usesGoList = true
+		return "(go_fqdn_ascii " + t.exprAs(e.Args[0], byteList) + ")", true
+	case (full == "strings.ToLower" || full == "bytes.ToLower") && asciiStrings:
+		usesGoList = true
+		return "(go_ascii_lower " + t.exprAs(e.Args[0], byteList) + ")", true
+	case (full == "strings.EqualFold" || full == "bytes.EqualFold") && asciiStrings:
+		usesGoList = true
+		return "(go_equal_fold_ascii " + t.exprAs(e.Args[0], byteList) + " " + t.exprAs(e.Args[1], byteList) + ")", true
 	}
 	return "", false
 }
@@ -2247,6 +2278,12 @@ func needsFuel(pi *pkgInfo, dir, fn string) bool {
 					cpi = loadPkg(cd)
 				}
 				cfn := callee.Name()
+				switch callee.FullName() {
+				case "github.com/miekg/dns.CanonicalName", "github.com/miekg/dns.IsFqdn", "github.com/miekg/dns.Fqdn":
+					if asciiStrings {
+						return true // modelled in GoList.v, no fuel
+					}
+				}
 				if sig, ok := callee.Type().(*types.Signature); ok && sig.Recv() != nil {
 					if n := namedOf(sig.Recv().Type()); n != nil {
 						cfn = n.Obj().Name() + "." + callee.Name()
@@ -2267,6 +2304,10 @@ func needsFuel(pi *pkgInfo, dir, fn string) bool {
 }
 
 var allowParamMutation bool
+
+// asciiStrings: strings.ToLower / EqualFold are translated as their ASCII restrictions (item flag
+// "ascii_strings": exact only for inputs whose octets are all below 128).
+var asciiStrings bool
 
 // assumeNonNil: `p == nil` on a pointer to a struct reads false (the translation describes the
 // function on non-nil arguments; item flag "nonnil_pointers").
@@ -2440,6 +2481,7 @@ func doPureFunc(it Item) {
 	rootDir = it.Pkg
 	allowParamMutation = it.AllowParamMutation
 	assumeNonNil = it.NonNilPointers
+	asciiStrings = it.ASCIIStrings
 	pi := loadPkg(it.Pkg)
 	name := ensureFunc(pi, it.Pkg, it.Func, nil)
 	if it.As != "" && it.As != name {
@@ -2457,6 +2499,7 @@ func doPureFunc(it Item) {
 // result when the loop contains a return statement (unit otherwise).
 func doLoopFunc(it Item) {
 	rootDir = it.Pkg
+	asciiStrings = it.ASCIIStrings
 	assumeNonNil = it.NonNilPointers
 	pi := loadPkg(it.Pkg)
 	fd := pi.findFunc(it.Func)
